@@ -44,6 +44,8 @@ func c11Configs() []*world.Config {
 		world.UintCfg(2, urange(1, 5), 2, B, "big"),
 		world.LKeyCfg(2, []uint8{0, 1, 0, 0, 2, 0, 1, 2}, 2, M, "big"),
 		world.UintCfg(2, urange(1, 5), 2, B, "tiny2"),
+		// struct keys: ordered and layered through the user marshaler (every marshal call is a scheduling point)
+		world.StructCfg(2, []uint8{0, 1, 0, 0}, B, "big"),
 	}
 }
 
@@ -178,6 +180,7 @@ func c11Scenarios(thorough bool) []c11Scenario {
 		{0, []int{0, 1, 3, 4}, []int{0, 2, 3}},       // uint {1,2,4,5}, operate on 1, 3(absent), 4
 		{1, []int{0, 1, 2, 5, 6, 7}, []int{3, 4, 5}}, // deep user-key universe: insert 40 (layer 0), 50 (layer 2), touch 60
 		{2, []int{0, 1, 2, 3, 4}, []int{1, 2}},       // evicting cache
+		{3, []int{0, 1, 3}, []int{1, 2}},             // struct keys
 	}
 	for pi, pl := range plans {
 		cfg := c11Configs()[pl.cfg]
@@ -200,6 +203,9 @@ func c11Scenarios(thorough bool) []c11Scenario {
 					}
 					if !thorough && pi == 2 && capt == "clone" {
 						continue
+					}
+					if pi == 3 && (capt == "coldload" || a.Kind == "iter" || b.Kind == "iter" || a.Kind == "load" || b.Kind == "load" || a.Kind == "clone" || b.Kind == "clone" || a.Kind == "persist" || b.Kind == "persist") {
+						continue // struct keys: the point operations (each compares keys through the marshaler)
 					}
 					out = append(out, c11Scenario{Cfg: pl.cfg, Base: pl.base, Capture: capt, Seqs: [][]tOp{{a}, {b}}, Bound: bound})
 				}
